@@ -24,11 +24,11 @@ from common import MachineryError, Scratch, Verdict
 # per property: clause prefix(es), model families [(profile, n_quick, n_thorough)], monitor-only families, builds
 CONF = {
     "C01": dict(prefixes=("C01.",), builds=("pure", "cy"),
-                model=[("plain", 250, 2500), ("dag", 200, 2500), ("kinds3", 150, 2000), ("sync", 200, 2500),
-                       ("ctx", 100, 1000), ("faults", 150, 2000), ("everything", 200, 3000), ("lazyfail", 100, 1000), ("ival", 150, 1500),
-                       ("again", 250, 2500)],
-                monitor_only=[("cleanup", 400, 4000)],
-                big=[("big", 40, 600), ("everything", 200, 3000)], enum=True),
+                model=[("plain", 250, 1500), ("dag", 200, 1500), ("kinds3", 150, 1200), ("sync", 200, 1500),
+                       ("ctx", 100, 600), ("faults", 150, 1200), ("everything", 200, 2000), ("lazyfail", 100, 600), ("ival", 150, 1000),
+                       ("again", 250, 1500)],
+                monitor_only=[("cleanup", 400, 2500)],
+                big=[("big", 40, 400), ("everything", 200, 2000)], enum=True),
     "C02": dict(prefixes=("C02.",), builds=("pure",),
                 model=[("faults", 500, 5000), ("lazyfail", 250, 2500), ("syncfaults", 250, 3000), ("ctxfaults", 200, 2000), ("basefaults", 300, 3000),
                        ("everything", 200, 3000)],
